@@ -316,6 +316,9 @@ type Action struct {
 	After    int    `json:"after,omitempty"`    // cut: bytes of the next frame(s) the peer still reads
 	G        int    `json:"g,omitempty"`        // burst: goroutines
 	M        int    `json:"m,omitempty"`        // burst: packs per goroutine
+	// Reuse (send): the caller sends the pack OBJECT of its previous send again after changing its project code and
+	// object id, the time left as it was (one counter pack per interval, sent to project A and then to project B)
+	Reuse bool `json:"reuse,omitempty"`
 }
 
 type Case struct {
@@ -440,6 +443,9 @@ type runner struct {
 	sinceOwnerClose                     bool // Close / ApplyConfig by the owner, and no confirmed delivery since
 	resetDelivered                      bool // the peer reset the connection and the RST has arrived: the next write fails visibly
 	reconfs                             int
+	lastPack                            pack.Pack // pack object of the previous sequential send
+	forceID                             int64     // id recorded for the next send instead of the pack's time (re-sent object)
+	resent                              int
 }
 
 func (r *runner) received() map[int]int { // index in all -> connection index
@@ -495,7 +501,11 @@ func (r *runner) record(p pack.Pack, override bool, g int) int {
 		lic = clientLicense
 	}
 	f := expectedFrameLic(p, override, lic)
-	r.all = append(r.all, sent{id: p.GetTime(), frame: f, g: g})
+	id := p.GetTime()
+	if r.forceID != 0 {
+		id = r.forceID
+	}
+	r.all = append(r.all, sent{id: id, frame: f, g: g})
 	r.byFrame[string(f)] = len(r.all) - 1
 	return len(r.all) - 1
 }
@@ -542,8 +552,20 @@ func run(c Case) *pbt.Result {
 		switch a.K {
 		case "send":
 			r.nextID++
-			p := mkPack(r.nextID, a.Size, a.Seed)
+			var p pack.Pack
+			if a.Reuse && r.lastPack != nil && a.Size == 0 {
+				// the same object again, with another project code and object id and the time it had (seed C06-s24)
+				p = r.lastPack
+				p.SetPCODE(p.GetPCODE() + 1)
+				p.SetOID(int32(r.nextID*13 + 5))
+				r.forceID = r.nextID
+				r.resent++
+			} else {
+				p = mkPack(r.nextID, a.Size, a.Seed)
+			}
+			r.lastPack = p
 			idx := r.record(p, a.Override, 0)
+			r.forceID = 0
 			err := doSend(cl, p, a.Override)
 			if err != nil {
 				r.resetDelivered = false
@@ -780,6 +802,9 @@ func run(c Case) *pbt.Result {
 		}
 	}
 	classes := []string{fmt.Sprintf("idle-periods-on-a-healthy-connection=%d", min(idles, 2)), fmt.Sprintf("owner-closes-with-unread-frames=%d", min(r.closesWithBacklog, 2)), fmt.Sprintf("license-reloads=%d", min(r.reconfs, 2)), fmt.Sprintf("faults=%d", min(r.faults, 3)), fmt.Sprintf("recovered=%d", min(r.deliveredAfterFault, 3)), fmt.Sprintf("bursts=%d", min(r.bursts, 2)), fmt.Sprintf("connections=%d", min(pr.nconns(), 4))}
+	if r.resent > 0 {
+		classes = append(classes, "pack-object-sent-again-with-another-project-code")
+	}
 	return &pbt.Result{NT: r.deliveredAfterFault >= 1 || r.bursts >= 1, Classes: classes}
 }
 
@@ -807,6 +832,9 @@ func drawActions(t *rapid.T, big bool) []Action {
 				sizes = append(sizes, 300000, 2500000)
 			}
 			a.Size = rapid.SampledFrom(sizes).Draw(t, "size")
+			if k == "send" && a.Size == 0 {
+				a.Reuse = rapid.IntRange(0, 3).Draw(t, "reuse") == 0
+			}
 			if k == "burst" {
 				a.G = rapid.IntRange(2, 8).Draw(t, "g")
 				a.M = rapid.IntRange(1, 6).Draw(t, "m")
@@ -824,7 +852,7 @@ func drawActions(t *rapid.T, big bool) []Action {
 
 var specDirect = pbt.Register(pbt.Spec[Case]{
 	Prop: "C06", Name: "direct-mode-histories",
-	Rule:  "histories on a fresh one-way client in direct mode against a harness-owned loopback peer: send (packs of 6 types, 30 B..2.5 MB so that frames exceed the 2 MiB write buffer in the thorough tier, with/without per-send license), burst (2-8 goroutines x 1-6 concurrent sends), peer faults: cut after n bytes of the next frame (mid-header, mid-payload), cut between frames, reset, listener down (k failed connects) / up; collector pauses reading or reads slowly (16 KiB per 2 ms) / resumes, the owner closes the connection (Close, or ApplyConfig with another license when the peer listens on port 6600) with or without accepted frames still unread; in a quarter of the histories the write timeout is 250-400 ms and 1-2 quiet periods longer than it are inserted (the connection stays healthy however old it is); oracle = every connection's stream is a concatenation of whole frames (a partial tail only where the peer cut), every frame equals the reference frame of exactly one send (pack's project code, hash of the license in force, exact length), none twice, per-sender order kept, every send that returned nil on a healthy connection is received, the first send after a reset whose RST has been delivered reports an error (the loss is detectable), from the first reported error on the client recovers within three sends once the listener is up and the first nil send arrives on a new connection; non-trivial = a frame delivered after a fault, or a concurrent burst; distinct by case",
+	Rule:  "histories on a fresh one-way client in direct mode against a harness-owned loopback peer: send (packs of 6 types, 30 B..2.5 MB so that frames exceed the 2 MiB write buffer in the thorough tier, with/without per-send license; one small send in four re-sends the pack object of the previous send with another project code and object id and the same time), burst (2-8 goroutines x 1-6 concurrent sends), peer faults: cut after n bytes of the next frame (mid-header, mid-payload), cut between frames, reset, listener down (k failed connects) / up; collector pauses reading or reads slowly (16 KiB per 2 ms) / resumes, the owner closes the connection (Close, or ApplyConfig with another license when the peer listens on port 6600) with or without accepted frames still unread; in a quarter of the histories the write timeout is 250-400 ms and 1-2 quiet periods longer than it are inserted (the connection stays healthy however old it is); oracle = every connection's stream is a concatenation of whole frames (a partial tail only where the peer cut), every frame equals the reference frame of exactly one send (pack's project code, hash of the license in force, exact length), none twice, per-sender order kept, every send that returned nil on a healthy connection is received, the first send after a reset whose RST has been delivered reports an error (the loss is detectable), from the first reported error on the client recovers within three sends once the listener is up and the first nil send arrives on a new connection; non-trivial = a frame delivered after a fault, or a concurrent burst; distinct by case",
 	Quick: 60, Thorough: 2000,
 	Draw: func(t *rapid.T) Case {
 		c := Case{Actions: drawActions(t, pbt.Thorough())}
